@@ -30,6 +30,12 @@ var importMap = map[string][2]string{ // std path -> {shim path, default local n
 func main() {
 	dir := os.Args[1]
 	withTests := os.Getenv("INSTR_TESTS") == "1"
+	skipFiles := map[string]bool{}
+	for _, f := range strings.Split(os.Getenv("VPREP_SKIP"), ",") {
+		if f != "" {
+			skipFiles[f] = true
+		}
+	}
 	done := map[string]bool{}
 	cfg := &packages.Config{
 		Tests: withTests,
@@ -55,6 +61,9 @@ func main() {
 			name := p.CompiledGoFiles[i]
 			if (strings.HasSuffix(name, "_test.go") && !withTests) || done[name] || !strings.HasPrefix(name, dir) {
 				continue
+			}
+			if skipFiles[name[strings.LastIndex(name, "/")+1:]] {
+				continue // VPREP_SKIP: files left un-instrumented (pure logging plumbing)
 			}
 			done[name] = true
 			r := &rewriter{pkg: p, fset: p.Fset, file: f, st: st, skip: map[ast.Node]bool{}}
